@@ -208,13 +208,20 @@ class RefSimulation(object):
                 seg.append(order[pos])
                 pos += 1
             if tnext > t:
+                # every requested time is the END of an integration interval: the values do not go through the
+                # integrator's dense output (whose interpolation error is not covered by rtol / atol when the step
+                # size is limited by stability rather than accuracy)
                 tev = sorted({float(times[k]) for k in seg if times[k] > t})
-                sol = solve_ivp(lambda tt, xx: np.array(fn(tt, xx, consts, pace)[0], dtype=x.dtype),
-                                (t, tnext), x, method='DOP853', rtol=RTOL, atol=ATOL,
-                                t_eval=(tev + ([tnext] if (not tev or tev[-1] < tnext) else [])))
-                if not sol.success:
-                    raise myokit.SimulationError('simshim: integration failed: %s' % sol.message)
-                cols = {float(tt): sol.y[:, j] for j, tt in enumerate(sol.t)}
+                stops = tev + ([float(tnext)] if (not tev or tev[-1] < tnext) else [])
+                cols = {}
+                tcur, xcur = t, x
+                for stop in stops:
+                    sol = solve_ivp(lambda tt, xx: np.array(fn(tt, xx, consts, pace)[0], dtype=x.dtype),
+                                    (tcur, stop), xcur, method='DOP853', rtol=RTOL, atol=ATOL)
+                    if not sol.success:
+                        raise myokit.SimulationError('simshim: integration failed: %s' % sol.message)
+                    tcur, xcur = stop, sol.y[:, -1]
+                    cols[stop] = xcur
                 for k in seg:
                     tk = float(times[k])
                     record(k, tk, x if tk == t else cols[tk], pace)
